@@ -13,17 +13,21 @@
    Chain of N actions; every event brings, per action, the selector's answer and what the action would
    return.  Mechanism M_SelectorIndependentOfOtherActions: the guard in front of isMatch is the action's
    OWN busy flag (busyActions[index]); the mutant uses busyActionsTotal, so that one holding action
-   switches off the selectors of all the others.  TLC must accept the faithful configuration and reject
-   the mutant (ActionChain_mutant.cfg).                                                                *)
+   switches off the selectors of all the others.  Mechanism M_OnlyTimeoutExempt: time-out is the ONLY event
+   kind that is exempt from the selector; in particular the child events that an action such as split spawns
+   (processor.Spawn: SetChildKind, chain entered at the action after the spawning one) are judged like
+   regular events; the mutant judges regular events only.  TLC must accept the faithful configuration and
+   reject both mutants (ActionChain_mutant.cfg, ActionChain_mutant_kinds.cfg).                           *)
 EXTENDS Integers, Sequences, FiniteSets, TLC
 
 CONSTANTS N,                                   \* actions in the chain
           MaxEvents,                           \* events per behaviour
-          M_SelectorIndependentOfOtherActions  \* TRUE: as the code is; FALSE: the mutant
+          M_SelectorIndependentOfOtherActions, \* TRUE: as the code is; FALSE: the mutant
+          M_OnlyTimeoutExempt                  \* TRUE: as the code is; FALSE: only regular events are matched
 
 VARIABLES busy,      \* busyActions: [1..N -> BOOLEAN]
           nEv,       \* events processed so far
-          last       \* the last processed event with what happened: [tmo, sel, wasBusy, applied]
+          last       \* the last processed event with what happened: [kind, tmo, sel, wasBusy, applied]
 
 vars == <<busy, nEv, last>>
 Actions == 1..N
@@ -31,29 +35,33 @@ Results == {"pass", "hold", "collapse", "discard"}
 BusyTotal(b) == Cardinality({a \in Actions : b[a]})
 
 \* one pass of doActions over the chain, from action i, with the busy flags b
-RECURSIVE Run(_, _, _, _, _, _)
-Run(i, b, tmo, sel, res, applied) ==      \* applied[a]: 0 not reached, 1 reached and skipped, 2 Do invoked
+Kinds == {"regular", "child", "timeout"}
+RECURSIVE Run(_, _, _, _, _, _, _)
+Run(i, b, kind, tmo, sel, res, applied) ==      \* applied[a]: 0 not reached, 1 reached and skipped, 2 Do invoked
   IF i > N THEN [busy |-> b, applied |-> applied]
   ELSE LET guardOpen == IF M_SelectorIndependentOfOtherActions THEN ~b[i] ELSE BusyTotal(b) = 0
-           skip == guardOpen /\ ~tmo /\ ~sel[i]                 \* isMatch consulted and it said no
-       IN IF skip THEN Run(i + 1, b, tmo, sel, res, [applied EXCEPT ![i] = 1])
+           judged == IF M_OnlyTimeoutExempt THEN ~tmo ELSE kind = "regular"
+           skip == guardOpen /\ judged /\ ~sel[i]              \* isMatch consulted and it said no
+       IN IF skip THEN Run(i + 1, b, kind, tmo, sel, res, [applied EXCEPT ![i] = 1])
           ELSE LET ap == [applied EXCEPT ![i] = 2] IN
-               CASE res[i] = "pass"     -> Run(i + 1, [b EXCEPT ![i] = FALSE], tmo, sel, res, ap)   \* tryResetBusy
+               CASE res[i] = "pass"     -> Run(i + 1, [b EXCEPT ![i] = FALSE], kind, tmo, sel, res, ap)   \* tryResetBusy
                  [] res[i] = "discard"  -> [busy |-> [b EXCEPT ![i] = FALSE], applied |-> ap]
                  [] res[i] \in {"hold", "collapse"} -> [busy |-> [b EXCEPT ![i] = TRUE], applied |-> ap]  \* tryMarkBusy
 
 Init == /\ busy = [a \in Actions |-> FALSE]
         /\ nEv = 0
-        /\ last = [tmo |-> TRUE, sel |-> [a \in Actions |-> FALSE], wasBusy |-> [a \in Actions |-> FALSE],
+        /\ last = [kind |-> "timeout", tmo |-> TRUE, sel |-> [a \in Actions |-> FALSE], wasBusy |-> [a \in Actions |-> FALSE],
                    applied |-> [a \in Actions |-> 0]]
 
 Event ==
   /\ nEv < MaxEvents
-  /\ \E tmo \in BOOLEAN : \E sel \in [Actions -> BOOLEAN] : \E res \in [Actions -> Results] :
-       /\ tmo => BusyTotal(busy) > 0              \* time-out events exist only while something is busy
-       /\ LET r == Run(1, busy, tmo, sel, res, [a \in Actions |-> 0]) IN
+  /\ \E kind \in Kinds : \E start \in Actions : \E sel \in [Actions -> BOOLEAN] : \E res \in [Actions -> Results] :
+       /\ kind = "timeout" => BusyTotal(busy) > 0 \* time-out events exist only while something is busy
+       /\ kind = "regular" => start = 1           \* children enter the chain after the action that spawned them
+       /\ LET tmo == kind = "timeout"
+              r == Run(start, busy, kind, tmo, sel, res, [a \in Actions |-> 0]) IN
             /\ busy' = r.busy
-            /\ last' = [tmo |-> tmo, sel |-> sel, wasBusy |-> busy, applied |-> r.applied]
+            /\ last' = [kind |-> kind, tmo |-> tmo, sel |-> sel, wasBusy |-> busy, applied |-> r.applied]
   /\ nEv' = nEv + 1
 
 Next == Event
@@ -61,7 +69,7 @@ Spec == Init /\ [][Next]_vars
 
 TypeOK == busy \in [Actions -> BOOLEAN] /\ nEv \in 0..MaxEvents
 
-\* C14: an action is applied to an ordinary event only if its own selector says so or it is itself busy;
+\* C14: an action is applied to an event of any kind but time-out only if its own selector says so or it is itself busy;
 \* in particular the busy state of ANOTHER action never opens it
 SelectorDecides ==
   ~last.tmo => \A a \in Actions :
